@@ -343,48 +343,58 @@ N_NUMS = len(NUMS)
 VARIANT_PAIRS = [(c, d) for c in range(4) for d in range(4)]
 
 
-def fold_pairs_b(op: int, b0: bool, b1: bool, b2: bool, b3: bool, b4: bool, b5: bool, b6: bool, b7: bool, b8: bool, b9: bool, b10: bool, b11: bool) -> bool:
+def fold_pairs_b(b0: bool, b1: bool, b2: bool, b3: bool, b4: bool, b5: bool, b6: bool, b7: bool, b8: bool, b9: bool, b10: bool, b11: bool, b12: bool, b13: bool, b14: bool, b15: bool) -> bool:
     """
-    pre: 0 <= op < N_OPS
     post: _
     """
-    return untraced(_fold_pairs_b_impl, op, bits_index(b0, b1, b2, b3, b4, b5, b6, b7, b8, b9, b10, b11))
+    # index bits: b0-b3 operator, then operand a, operand b, type-variant pair (mixed radix)
+    return untraced(_fold_pairs_b_impl, bits_index(b0, b1, b2, b3, b4, b5, b6, b7, b8, b9, b10, b11, b12, b13, b14, b15))
 
 
-def _fold_pairs_b_impl(op, idx):
-    d = decode_index(idx, [N_VALS, N_VALS, len(VARIANT_PAIRS)])
+def _fold_pairs_b_impl(idx):
+    op = idx & 15
+    if op >= N_OPS:
+        return True
+    d = decode_index(idx >> 4, [N_VALS, N_VALS, len(VARIANT_PAIRS)])
     if d is None:
         return True
     vc, vd = VARIANT_PAIRS[d[2]]
     return _fold_pairs_impl(op, d[0], d[1], vc, vd)
 
 
-def fold_nested_b(op2: int, right_nested: bool, ctx: int, b0: bool, b1: bool, b2: bool, b3: bool, b4: bool, b5: bool, b6: bool, b7: bool, b8: bool, b9: bool, b10: bool, b11: bool) -> bool:
-    """
-    pre: 0 <= op2 < N_OPS
-    pre: 0 <= ctx < N_CTX
-    post: _
-    """
-    return untraced(_fold_nested_b_impl, op2, right_nested, ctx, bits_index(b0, b1, b2, b3, b4, b5, b6, b7, b8, b9, b10, b11))
+NESTED_SEL = [1, 3, 4, 7, 9, 12, 14, 15]     # 8 of the representative literals: 1 3 10 True 1.0 0.5 1e999 2j
 
 
-def _fold_nested_b_impl(op2, right_nested, ctx, idx):
-    d = decode_index(idx, [N_OPS, 8, 8, 8])
-    if d is None:
-        return True
-    sel = [1, 3, 4, 7, 9, 12, 14, 15]     # 8 of the representative literals: 1 3 10 True 1.0 0.5 1e999 2j
-    return _fold_nested_impl(d[0], op2, sel[d[1]], sel[d[2]], sel[d[3]], ctx, right_nested)
-
-
-def number_print_b(neg: bool, b0: bool, b1: bool, b2: bool, b3: bool, b4: bool, b5: bool, b6: bool, b7: bool, b8: bool, b9: bool, b10: bool, b11: bool) -> bool:
+def fold_nested_b(b0: bool, b1: bool, b2: bool, b3: bool, b4: bool, b5: bool, b6: bool, b7: bool, b8: bool, b9: bool, b10: bool, b11: bool, b12: bool, b13: bool, b14: bool, b15: bool, b16: bool, b17: bool, b18: bool, b19: bool, b20: bool, b21: bool) -> bool:
     """
     post: _
     """
-    return untraced(_number_print_b_impl, neg, bits_index(b0, b1, b2, b3, b4, b5, b6, b7, b8, b9, b10, b11))
+    # index bits: b0-b3 outer operator, b4 right-nested, b5-b8 context, then inner operator and three operands (8 each)
+    return untraced(_fold_nested_b_impl, bits_index(b0, b1, b2, b3, b4, b5, b6, b7, b8, b9, b10, b11, b12, b13, b14, b15, b16, b17, b18, b19, b20, b21))
 
 
-def _number_print_b_impl(neg, idx):
-    d = decode_index(idx, [N_NUMS, N_CTX])
+def _fold_nested_b_impl(idx):
+    op2 = idx & 15
+    rn = bool((idx >> 4) & 1)
+    ctx = (idx >> 5) & 15
+    if op2 >= N_OPS or ctx >= N_CTX:
+        return True
+    d = decode_index(idx >> 9, [N_OPS, 8, 8, 8])
     if d is None:
         return True
-    return _number_print_impl(d[0], neg, d[1])
+    return _fold_nested_impl(d[0], op2, NESTED_SEL[d[1]], NESTED_SEL[d[2]], NESTED_SEL[d[3]], ctx, rn)
+
+
+def number_print_b(b0: bool, b1: bool, b2: bool, b3: bool, b4: bool, b5: bool, b6: bool, b7: bool, b8: bool, b9: bool, b10: bool) -> bool:
+    """
+    post: _
+    """
+    # index bits: b0 sign, then constant x context (mixed radix)
+    return untraced(_number_print_b_impl, bits_index(b0, b1, b2, b3, b4, b5, b6, b7, b8, b9, b10))
+
+
+def _number_print_b_impl(idx):
+    d = decode_index(idx >> 1, [N_NUMS, N_CTX])
+    if d is None:
+        return True
+    return _number_print_impl(d[0], bool(idx & 1), d[1])
